@@ -25,6 +25,11 @@ pub struct Cfg {
     no_error_fn: bool,
     /// seed() is the last builder call instead of coming before error_rate()/error_fn()
     seed_last: bool,
+    /// seed() between error_rate() and error_fn()
+    seed_mid: bool,
+    /// service B obtains `batch` call futures first (in request order) and then awaits them in
+    /// that order: call order and first-poll order still agree with service A's sequential order
+    batch: usize,
     n: usize,
     inner_fail: Vec<bool>,
 }
@@ -44,6 +49,8 @@ pub fn gen(rng: &mut Prng) -> Cfg {
         rate_first: rng.chance(0.5),
         no_error_fn,
         seed_last: rng.chance(0.4),
+        seed_mid: rng.chance(0.3),
+        batch: if rng.chance(0.4) { rng.range(2, 4) as usize } else { 1 },
         n,
         inner_fail: (0..n).map(|_| rng.chance(0.2)).collect(),
     }
@@ -65,17 +72,35 @@ pub fn run(cfg: &Cfg, seed: u64) -> Arc<World> {
                     let mut b = $layer.layer(w.probe(2));
                     boxed(async move {
                         let map = |e: &PErr| Outcome::inner(e);
+                        let mk = |i: usize, base: u64| {
+                            let id = base + i as u64 + 1;
+                            Req::new(id, 0, vec![Step { lat: Lat::Us(0), out: if cfgc.inner_fail[i] { Out::Err(1) } else { Out::Ok } }])
+                        };
+                        // service A: strictly sequential
                         for i in 0..cfgc.n {
-                            for (s, base) in [(0u64, 0u64), (1, 1_000_000)] {
-                                let id = base + i as u64 + 1;
-                                let req = Req::new(id, 0, vec![Step { lat: Lat::Us(0), out: if cfgc.inner_fail[i] { Out::Err(1) } else { Out::Ok } }]);
+                            let req = mk(i, 0);
+                            w2.log(Ev::Arrive { req: req.id });
+                            do_call(&w2, &mut a, req, false, &map).await;
+                        }
+                        // service B: in batches (futures obtained in order, then awaited in order)
+                        let mut i = 0;
+                        while i < cfgc.n {
+                            let k = cfgc.batch.min(cfgc.n - i);
+                            let mut futs = vec![];
+                            for j in i..i + k {
+                                let req = mk(j, 1_000_000);
+                                let id = req.id;
                                 w2.log(Ev::Arrive { req: id });
-                                if s == 0 {
-                                    do_call(&w2, &mut a, req, false, &map).await;
-                                } else {
-                                    do_call(&w2, &mut b, req, false, &map).await;
-                                }
+                                let _ = std::future::poll_fn(|cx| tower::Service::poll_ready(&mut b, cx)).await;
+                                futs.push((id, tower::Service::call(&mut b, req)));
+                                w2.log(Ev::Issued { req: id });
                             }
+                            for (id, f) in futs {
+                                w2.log(Ev::FirstPoll { req: id });
+                                let r = f.await;
+                                w2.log(Ev::Resolve { req: id, out: match &r { Ok(x) => Outcome::ok(x), Err(e) => map(e) } });
+                            }
+                            i += k;
                         }
                         w2.note("driver-done");
                     })
@@ -85,6 +110,9 @@ pub fn run(cfg: &Cfg, seed: u64) -> Arc<World> {
             let base = if cfg.seed_last { base } else { base.seed(cfg.seed) };
             if cfg.no_error_fn {
                 let layer = base.seed(cfg.seed).build();
+                drive!(layer)
+            } else if cfg.rate_first && cfg.seed_mid {
+                let layer = base.error_rate(cfg.err_rate).seed(cfg.seed).error_fn(efn).build();
                 drive!(layer)
             } else if cfg.rate_first {
                 let b = base.error_rate(cfg.err_rate).error_fn(efn);
